@@ -167,8 +167,8 @@ def waitset(facts, rep):
     b = cor[0]
     fc = FnCtx(b)
     m = fc.mir
-    reg = [bb for bb, t in fc.calls("StatusConditionAsync::register_notification")]
-    trig = [bb for bb, t in fc.calls("ConditionAsync::get_trigger_value")]
+    reg = [bb for bb, t in fc.calls_deep(facts, "StatusConditionAsync::register_notification")]
+    trig = [bb for bb, t in fc.calls_deep(facts, "ConditionAsync::get_trigger_value")]
     chan = [bb for bb, t in fc.calls("notification")]
     add("R32e", "wait registers a notification on the attached conditions", bool(reg), "no register_notification call")
     add("R32e", "trigger values are collected before and after waiting", len(trig) >= 2, "get_trigger_value is called %d time(s)" % len(trig))
